@@ -78,7 +78,20 @@ class AwaitableTrue:
         return False
 
 
-EXC_CLASSES = [UserError, UserBaseError, UserKeyboardInterrupt, UserGeneratorExit, UserCancelled]
+class UserTypeError(Tagged, TypeError):
+    """an ordinary exception of user code that happens to be a TypeError (what `None > 0` raises)"""
+
+
+EXC_CLASSES = [UserError, UserBaseError, UserKeyboardInterrupt, UserGeneratorExit, UserCancelled, UserError, UserError,
+               UserError, UserTypeError]
+
+
+def exc_class(tag):
+    """the class of the exception object with this tag: the residue mod 8 says which kind (0 = a sub-class of
+    Exception); among those every third one is a TypeError"""
+    if tag % 8 == 0 and (tag // 8) % 3 == 0:
+        return UserTypeError
+    return EXC_CLASSES[tag % 8]
 
 
 class ErrClass0(Exception):
@@ -142,7 +155,7 @@ class World:
 
     def exc(self, tag):
         if tag not in self.excs:
-            e = EXC_CLASSES[tag % 8](tag)
+            e = exc_class(tag)(tag)
             e.tag = tag
             e.falsy = (tag // 8) % 2 == 1
             try:                       # it has been raised before: it carries a traceback
